@@ -1,7 +1,177 @@
+import LoraVerif.Model.PhyRx
+import LoraVerif.Spec.RxFetch
 import Driver.Util
-/-! Suite C18: line-protocol handlers (stub — replaced when the property's model is built). -/
+/-! Suite C18: model = `Model.PhyRx` (get_rx_payload of both drivers, RadioBuffer, the adapter's
+delivery), spec = `Spec.RxFetch`.  Op lines: see `harness/src/c18.rs`. -/
+open Model.PhyRx
 namespace Driver.C18
 
-def handle (_ws : List String) : String := "bad-op"
+def chipByte (seed i : Nat) : UInt8 := UInt8.ofNat ((seed + 31 * i) % 256)
+def callerByte (i : Nat) : UInt8 := UInt8.ofNat ((0xC3 + 5 * i) % 256)
+def callerBuf (n : Nat) : Bytes := (List.range n).map callerByte
+
+def hexOrDash (bs : Bytes) : String := if bs.isEmpty then "-" else hexOfBytes bs
+
+structure Case where
+  chip : Nat
+  status : Nat
+  len : Nat
+  off : Nat
+  alt : Nat
+  bufsize : Nat
+  implicit : Bool
+  fault : Option Nat
+  seed : Nat
+
+def parseCase (ws : List String) : Option Case :=
+  match ws with
+  | [chip, status, len, off, alt, bufsize, implicit, fault, seed] => do
+    let chip ← chip.toNat?
+    let status ← status.toNat?
+    let len ← len.toNat?
+    let off ← off.toNat?
+    let alt ← alt.toNat?
+    let bufsize ← bufsize.toNat?
+    let implicit ← parseBool? implicit
+    let fault ← (if fault = "-" then some none else fault.toNat?.map some)
+    let seed ← seed.toNat?
+    if (chip = 126 ∨ chip = 127) ∧ status < 256 ∧ len < 256 ∧ off < 256 ∧ alt < 256 ∧ bufsize ≤ 4096 then
+      some ⟨chip, status, len, off, alt, bufsize, implicit, fault, seed⟩
+    else none
+  | _ => none
+
+def runModel (c : Case) : Res × Nat :=
+  let buf := callerBuf c.bufsize
+  if c.chip = 126 then
+    (getRxPayload126 { status := UInt8.ofNat c.status, rxLen := UInt8.ofNat c.len, rxStart := UInt8.ofNat c.off,
+                       regPayloadLen := UInt8.ofNat c.alt, buffer := chipByte c.seed } c.implicit c.fault buf, 0)
+  else
+    let r := getRxPayload127 { regRxNbBytes := UInt8.ofNat c.len, regFifoRxCurrentAddr := UInt8.ofNat c.off,
+                               fifoPtr := 0x77, fifo := chipByte c.seed } c.implicit (UInt8.ofNat c.alt) c.fault buf
+    (r.res, r.ptr.toNat)
+
+def showErr : RadioErr → String
+  | .spi => "SPI"
+  | .busy => "Busy"
+  | .opError s => s!"OpError({s.toNat})"
+  | .payloadSizeMismatch n size => s!"PayloadSizeMismatch({n}, {size})"
+
+def showOut : Outcome Nat → String
+  | .ok n => s!"ok:{n}"
+  | .err e => s!"err:{showErr e}"
+  | .panic _ => "PANIC"
+
+def codeOf : Outcome Nat → UInt64
+  | .ok n => n.toUInt64
+  | .err (.opError s) => 0x1000 + s.toUInt64
+  | .err (.payloadSizeMismatch n _) => 0x2000 + n.toUInt64
+  | .err .spi => 0x3000
+  | .err .busy => 0x3001
+  | .panic _ => 0xFFFFFFFFFFFFFFFF
+
+/-- the specification's verdict for a fault-free case, in the same notation -/
+def runSpec (c : Case) : Outcome Nat × Bytes :=
+  let buf := callerBuf c.bufsize
+  let n := if c.chip = 126 then (if c.implicit then c.alt else c.len) else (if c.implicit then c.alt else c.len)
+  let status : Option Nat := if c.chip = 126 then some c.status else none
+  match Spec.RxFetch.fetch (chipByte c.seed) status n c.off buf with
+  | .fetched n b => (.ok n, b)
+  | .refusedStatus s => (.err (.opError (UInt8.ofNat s)), buf)
+  | .refusedTooLong n size => (.err (.payloadSizeMismatch n size), buf)
+
+def feed (h : Fnv) (o : Outcome Nat) (buf : Bytes) : Fnv :=
+  let h := h.word (codeOf o)
+  let h := buf.foldl (fun h b => h.byte b) h
+  h.byte 1
+
+def digest (chip status bufsize : Nat) (implicit : Bool) (seed : Nat) (spec : Bool) : UInt64 := Id.run do
+  let mut h : Fnv := {}
+  for a in [0:256] do
+    for off in [0:256] do
+      let (len, alt) := if implicit then (a ^^^ 0x5a, a) else (a, a ^^^ 0x5a)
+      let c : Case := ⟨chip, status, len, off, alt, bufsize, implicit, none, seed⟩
+      if spec then
+        let (o, b) := runSpec c
+        h := feed h o b
+      else
+        let (r, _) := runModel c
+        h := feed h r.out r.buf
+  return h.h
+
+def rbModel (n pos : Nat) : String :=
+  let b := (RadioBuffer.new n).setPos pos
+  match b.asMutForRead, b.asRefForRead with
+  | some m, some r => s!"ok:{m.length},{r.length},{b.asMut.length}"
+  | _, _ => "PANIC"
+
+def rbSpec (n pos : Nat) : String := if pos ≤ n then s!"ok:{pos},{pos},{n}" else "PANIC"
+
+def rbExt (n pos len : Nat) : String :=
+  let b : RadioBuffer := { packet := callerBuf n, pos := pos }
+  match b.extendFromSlice ((List.range len).map (chipByte 7)) with
+  | .ok (some b') =>
+    match b'.asRefForRead with
+    | some r => s!"ok:{r.length} {hexOrDash b'.packet}"
+    | none => "PANIC"
+  | .ok none => s!"full {hexOrDash b.packet}"
+  | .err _ => "PANIC"
+  | .panic _ => "PANIC"
+
+def adapterModel (chip len off seed : Nat) : String :=
+  let zeros := (RadioBuffer.new 256)
+  let r : Res :=
+    if chip = 126 then
+      getRxPayload126 { status := 0, rxLen := UInt8.ofNat len, rxStart := UInt8.ofNat off, regPayloadLen := 255,
+                        buffer := chipByte seed } false none zeros.asMut
+    else
+      (getRxPayload127 { regRxNbBytes := UInt8.ofNat len, regFifoRxCurrentAddr := UInt8.ofNat off, fifoPtr := 0,
+                         fifo := chipByte seed } false 255 none zeros.asMut).res
+  match adapterDeliver zeros r, r.out with
+  | .ok bytes, .ok n => s!"ok:{n} {hexOrDash bytes}"
+  | .err _, _ => "err"
+  | _, _ => "PANIC"
+
+def adapterSpec (len off seed : Nat) : String :=
+  -- the MAC must get exactly the `len` bytes the chip holds at `off` (mod 256)
+  s!"ok:{len} {hexOrDash ((List.range len).map (fun i => chipByte seed ((off + i) % 256)))}"
+
+def handle (ws : List String) : String :=
+  match ws with
+  | "rx" :: rest =>
+    match parseCase rest with
+    | some c =>
+      let (r, _) := runModel c
+      let m := s!"{showOut r.out} {hexOrDash r.buf} canary-ok"
+      let s := match c.fault with
+        | some _ => "-"
+        | none => let (o, b) := runSpec c; s!"{showOut o} {hexOrDash b} canary-ok"
+      s!"{m}|{s}"
+    | none => "bad-op"
+  | "rxp" :: rest =>
+    match parseCase rest with
+    | some c => if c.chip = 127 then let (r, p) := runModel c; s!"{showOut r.out} ptr={p}|-" else "bad-op"
+    | none => "bad-op"
+  | ["rx_digest", chip, status, bufsize, implicit, seed] =>
+    match chip.toNat?, status.toNat?, bufsize.toNat?, parseBool? implicit, seed.toNat? with
+    | some chip, some status, some bufsize, some implicit, some seed =>
+      if (chip = 126 ∨ chip = 127) ∧ status < 256 ∧ bufsize ≤ 4096 then
+        s!"{hex64 (digest chip status bufsize implicit seed false)}|{hex64 (digest chip status bufsize implicit seed true)}"
+      else "bad-op"
+    | _, _, _, _, _ => "bad-op"
+  | ["rb", n, pos] =>
+    match n.toNat?, pos.toNat? with
+    | some n, some pos => if n = 1 ∨ n = 16 ∨ n = 255 ∨ n = 256 then s!"{rbModel n pos}|{rbSpec n pos}" else "bad-op"
+    | _, _ => "bad-op"
+  | ["rbext", n, pos, len] =>
+    match n.toNat?, pos.toNat?, len.toNat? with
+    | some n, some pos, some len =>
+      if (n = 1 ∨ n = 16 ∨ n = 255 ∨ n = 256) ∧ len ≤ 600 then s!"{rbExt n pos len}|-" else "bad-op"
+    | _, _, _ => "bad-op"
+  | ["adapter", chip, len, off, seed] =>
+    match chip.toNat?, len.toNat?, off.toNat?, seed.toNat? with
+    | some chip, some len, some off, some seed =>
+      if (chip = 126 ∨ chip = 127) ∧ len < 256 ∧ off < 256 then s!"{adapterModel chip len off seed}|{adapterSpec len off seed}" else "bad-op"
+    | _, _, _, _ => "bad-op"
+  | _ => "bad-op"
 
 end Driver.C18
